@@ -1,7 +1,7 @@
 ---------------------------- MODULE MC_Grading ----------------------------
 EXTENDS Grading
 AllScripts == {"plain", "override", "override_twice", "suppress", "crashing", "formatter", "mocks", "sections",
-               "pools", "partial", "groups", "tifa_types", "classhook", "raiser_a", "raiser_b", "qpool", "plain_notifa", "cover"}
+               "pools", "partial", "groups", "tifa_types", "classhook", "raiser_a", "raiser_b", "qpool", "plain_notifa", "cover", "vplmax@vpl", "vplplain@vpl"}
 QuickScripts == {"plain", "override_twice", "suppress", "crashing", "sections", "pools", "mocks"}
 \* what each script of bind/grading.py dirties
 W == [s \in AllScripts |->
@@ -14,6 +14,8 @@ W == [s \in AllScripts |->
           [] s \in {"mocks", "raiser_a", "raiser_b"} -> {"feedback", "tooldata", "sandbox_mocks"}
           [] s = "sections" -> {"feedback", "tooldata", "sections", "hooks"}
           [] s = "pools" -> {"feedback", "tooldata", "pools"}
+          [] s = "vplmax@vpl" -> {"feedback", "tooldata", "formatter", "vpl_maximum"}   \* set_maximum_score(100)
+          [] s = "vplplain@vpl" -> {"feedback", "tooldata", "formatter"}
           [] s = "cover" -> {"feedback", "tooldata", "tracer", "coverage_data"}   \* what the coverage tracer measured
           [] s = "qpool" -> {"feedback", "tooldata", "question_pools"}      \* the running count of question pools
           [] s = "partial" -> {"feedback", "tooldata", "hiddens"}
@@ -43,9 +45,11 @@ CodeClearResets == {"feedback", "suppressions", "hiddens", "hooks", "tooldata", 
                     "sandbox_mocks", "tracer", "sections", "builtin_modules", "pools",
                     "type_tables", "question_pools",
                     "fresh_modules",
-                    "coverage_data"}     \* every execution ends by putting the module table back: what student code imported first is unloaded     \* every type VALUE copies its class' method table (Type.__init__), so nothing outlives the analysis
+                    "coverage_data",
+                    "vpl_maximum"}        \* setting up the VPL environment starts from the default maximum again     \* every execution ends by putting the module table back: what student code imported first is unloaded     \* every type VALUE copies its class' method table (Type.__init__), so nothing outlives the analysis
 PinnedClearResets == CodeClearResets \ {"pools", "question_pools"}
 SharedTables == CodeClearResets \ {"type_tables"}
 ModulesStay == CodeClearResets \ {"fresh_modules"}
+VplMaximumStays == CodeClearResets \ {"vpl_maximum"}
 CoverageAccumulates == CodeClearResets \ {"coverage_data"}        \* one measurement object for the whole process
 =============================================================================
